@@ -456,6 +456,40 @@ header_units.lib = dict(_HLIB)
 CONTRACTS += [header_units]
 
 
+# `table_contains_column` (the readers' and the samplers' "does the library store ln_prior?" test): same header model; decided for the three
+# stored names and for a name the header does not list
+def _tcc_root(ex, path, name):
+    root = Obj("tb.root", {}, ident="root")
+    def _gi(ex_, p_, recv_, key, n_):
+        p_.ghost.setdefault("tcc_keys", []).append(key)
+        return _hdr_dataset(ex_, p_, "header_dataset")
+    root.fields["__getitem__"] = _gi
+    return root
+
+
+def _tcc_key_ok(ex, path, args, kwargs, node, fn):
+    keys = path.ghost.get("tcc_keys", [])
+    # the class attribute by reference, or its value (pinned to "samples" by the JokerSamples.write/read contracts below)
+    return len(keys) == 1 and keys[0] in ("meta_path(samples)", "meta_path(thejoker.samples.JokerSamples._hdf5_path)")
+
+
+def _tcc_meta_path(ex, path, args, kwargs, node, fn):
+    a = args[0]
+    if isinstance(a, str):
+        return f"meta_path({a})"
+    return f"meta_path({getattr(a, 'dotted', type(a).__name__)})"
+
+
+contains_column = [Contract(U + "table_contains_column", PROPERTY, params={"root": _tcc_root, "column": ("const", col)},
+                            cases=[{"_name": f"column={col}"}],
+                            ensures={"true-exactly-for-the-names-the-header-lists": f"result == {col != 'colD'}",
+                                     "the-header-read-is-the-one-of-the-samples-table": "header_of_samples_table_()"})
+                   for col in ("colA", "colB", "colC", "colD")]
+for _c in contains_column:
+    _c.lib = dict(_HLIB, header_of_samples_table_=_tcc_key_ok, **{k: _tcc_meta_path for k in ("astropy.io.misc.hdf5.meta_path", "thejoker.utils.meta_path", "meta_path")})
+CONTRACTS += contains_column
+
+
 # ---- JokerSamples.write / read: the wiring around the table writer / reader (cfg mode: calls are events) ---------------------------------------------
 SJ = "thejoker.samples.JokerSamples."
 
